@@ -25,6 +25,11 @@
 
 namespace cdsv {
 
+    // A store into a dying object made by its destructor is a dead store for the compiler (GCC -flifetime-dse, on by default) and is
+    // removed unless something may still read it. The poison marks of the harness types are followed by this barrier; the builds also use
+    // -fno-lifetime-dse.
+    inline void poison_barrier() { __asm__ __volatile__( "" ::: "memory" ); }
+
     // ---------------------------------------------------------------- PRNG
     inline uint64_t mix64( uint64_t x )
     {
